@@ -8,6 +8,7 @@ import (
 	"strconv"
 	"strings"
 	"sync"
+	"sync/atomic"
 	"syscall"
 	"time"
 )
@@ -92,18 +93,31 @@ func (pc *procController) Enter(op *Op) Decision {
 		// No notifier of our own is registered: whether the signal is caught at all is the application's
 		// business. kill(2) to oneself delivers the signal to the calling thread before it returns, so the
 		// Go runtime has queued it (or the default action has ended the process) when we continue.
+		seen := atomic.LoadInt32(&signalsSeen)
 		_ = syscall.Kill(os.Getpid(), sig)
-		// let the application's own handler goroutine run (it cancels the context)
+		// let the application's own handler goroutine run (it cancels the context): csvq's handler builds its
+		// SignalReceived error (SignalSeen) right before it cancels. Waiting for that, not for a fixed time, keeps
+		// "delivered before point k" true on a loaded machine. An application that does not catch the signal has
+		// been ended by it; one that handles it otherwise is given 2 s.
+		for i := 0; i < 20000 && atomic.LoadInt32(&signalsSeen) == seen; i++ {
+			runtime.Gosched()
+			time.Sleep(100 * time.Microsecond)
+		}
 		for i := 0; i < 100; i++ {
 			runtime.Gosched()
 		}
-		time.Sleep(5 * time.Millisecond)
+		time.Sleep(2 * time.Millisecond)
 	}
 	if k == pc.failAt && pc.failErr != 0 {
 		return Decision{Inject: pc.failErr}
 	}
 	return Decision{Real: true}
 }
+
+var signalsSeen int32
+
+// SignalSeen is called by the application's signal handler (through lib/query.NewSignalReceived).
+func SignalSeen() { atomic.AddInt32(&signalsSeen, 1) }
 
 func (pc *procController) Exit(op *Op, result string) {
 	pc.mu.Lock()
